@@ -39,7 +39,6 @@ import (
 	"github.com/kardiachain/go-kardia/kai/state/cstate"
 	"github.com/kardiachain/go-kardia/kvm"
 	"github.com/kardiachain/go-kardia/lib/common"
-	"github.com/kardiachain/go-kardia/lib/crypto"
 	"github.com/kardiachain/go-kardia/mainchain/staking"
 	"github.com/kardiachain/go-kardia/trie"
 	"github.com/kardiachain/go-kardia/types"
@@ -92,7 +91,7 @@ func newWorld(kind string) *world {
 	}
 	it.Release()
 	w.chainID = n.bc.Config().ChainID
-	w.X = crypto.CreateAddress(addrA, 0)
+	w.X = contractAddr(kind)
 	su, err1 := staking.NewSmcStakingUtil()
 	vu, err2 := staking.NewSmcValidatorUtil()
 	if err1 != nil || err2 != nil {
@@ -145,6 +144,9 @@ func buildPrestates(kinds []string) []*prestate {
 		w := newWorld(kind)
 		gen := &prestate{Kind: kind, Name: "genesis", w: w, base: map[string]uint64{"A": 0, "B": 0, "V3": 0}, images: map[cacheCfg]*image{}}
 		out = append(out, gen)
+		if strings.HasSuffix(kind, "+alloc") {
+			continue // the contract is part of the genesis: no deploying parent block
+		}
 		n, err := boot(cfgFromBits(0), kind)
 		if err != nil {
 			fatal("boot:", err)
@@ -364,16 +366,19 @@ func execute(p *prestate, v variant, w *wireBlock) *obs {
 // one case = one (parent state, template sequence)
 
 type caseID struct {
-	Sub      string   `json:"subcheck"`
-	Kind     string   `json:"chain"`
-	Pre      string   `json:"parent_state"`
-	Seq      []string `json:"templates"`
-	Axis     string   `json:"axis"`
-	Field    string   `json:"field"`
-	Variant  *variant `json:"variant,omitempty"`
-	Block    string   `json:"which_block"` // "enumerated" (template order) | "proposed" (what the pool produced)
-	RefValue string   `json:"reference_value"`
-	GotValue string   `json:"variant_value"`
+	Sub     string   `json:"subcheck"`
+	Kind    string   `json:"chain"`
+	Pre     string   `json:"parent_state"`
+	Seq     []string `json:"templates"`
+	Axis    string   `json:"axis"`
+	Field   string   `json:"field"`
+	Variant *variant `json:"variant,omitempty"`
+	// chains (subcheck "chain"): the template sequence of every block up to the failing one, and the variant
+	Chain        [][]string    `json:"chain,omitempty"`
+	ChainVariant *chainVariant `json:"chain_variant,omitempty"`
+	Block        string        `json:"which_block"` // "enumerated" (template order) | "proposed" (what the pool produced)
+	RefValue     string        `json:"reference_value"`
+	GotValue     string        `json:"variant_value"`
 }
 
 type finding struct {
@@ -645,9 +650,11 @@ func enumerate(pres []*prestate, maxLen int) []job {
 	if len(core) != len(coreNames) {
 		fatal("core alphabet names a template that does not exist")
 	}
-	full := make([]int, len(alphabet))
-	for i := range full {
-		full[i] = i
+	var full []int
+	for i, t := range alphabet {
+		if !t.ChainOnly {
+			full = append(full, i)
+		}
 	}
 	for l := 0; l <= maxLen; l++ {
 		letters := full
@@ -788,7 +795,74 @@ func main() {
 	// 1. validator-report order sub-check (pure, fast)
 	runValidatorReports()
 
-	// 2. blocks
+	// 2. chains of consecutive blocks on the parent states whose contract is part of the genesis allocation
+	chainBlocks := 2
+	if r.Thorough() {
+		chainBlocks = 3
+	}
+	cpres := chainPrestates()
+	cjobs := enumerateChains(cpres, chainBlocks)
+	cresults := make([]*chainResult, len(cjobs))
+	cvariants := chainVariantsFor(chainBlocks)
+	var cmu sync.Mutex
+	var clearThenRead, readOK int64
+	cdone := par.For(int64(len(cjobs)), 1, r.Expired, func(i int64) {
+		j := cjobs[i]
+		cr := runChainCase(j, int(i), cvariants)
+		cresults[i] = cr
+		r.Add("chains", 1)
+		if len(cr.ref) != len(j.blocks) {
+			return
+		}
+		// measured: which chains clear a non-zero slot 1 of the genesis contract in one block and read it in a later one
+		nontrivial := false
+		was, cleared, ctr := "1234", -1, false
+		for k, b := range j.blocks {
+			o := cr.ref[k]
+			for _, rc := range o.Receipts {
+				if rc.Status == 1 {
+					nontrivial = true
+				}
+			}
+			now := slot1Of(o)
+			nm := seqName(b)
+			if cleared >= 0 && (nm == "setB" || nm == "readB") && len(o.Receipts) == 1 && o.Receipts[0].Status == 1 {
+				ctr = true
+			}
+			if nm == "readB" && len(o.Receipts) == 1 && o.Receipts[0].Status == 1 {
+				cmu.Lock()
+				readOK++
+				cmu.Unlock()
+			}
+			if was != "0" && now == "0" && nm == "clrA" {
+				cleared = k
+			} else if now != "0" {
+				cleared = -1
+			}
+			was = now
+		}
+		if ctr {
+			cmu.Lock()
+			clearThenRead++
+			cmu.Unlock()
+		}
+		if nontrivial {
+			r.Distinct("distinct_nontrivial", "chain:"+j.describe(len(j.blocks)-1))
+		}
+		if r.WantSample() && chainName(j.blocks) == "clrA/readB" {
+			var rb []string
+			for _, o := range cr.ref {
+				rb = append(rb, o.ReadBack)
+			}
+			r.Sample(map[string]interface{}{"chain": chainName(j.blocks), "parent_state": j.p.id(), "variants_executed": len(cvariants),
+				"contract_read_back_after_each_block": rb, "app_hash_after_each_block": []string{cr.ref[0].AppHash, cr.ref[1].AppHash}})
+		}
+	})
+	r.Set("chain_blocks", chainBlocks)
+	r.Set("chain_variants", len(cvariants))
+	r.Set("chains_clearing_a_genesis_slot_then_reading_it", clearThenRead)
+
+	// 3. blocks
 	pres := kindsAndPrestates()
 	jobs := enumerate(pres, maxLen)
 	results := make([]*caseResult, len(jobs))
@@ -929,16 +1003,22 @@ func main() {
 	// 5. report: one signature per (axis, field), canonicalised to the shortest failing block
 	best := map[string]finding{}
 	count := map[string]int{}
+	var allFindings []finding
 	for _, cr := range results {
-		if cr == nil {
-			continue
+		if cr != nil {
+			allFindings = append(allFindings, cr.findings...)
 		}
-		for _, f := range cr.findings {
-			k := f.axis + "|" + f.field
-			count[k]++
-			if b, ok := best[k]; !ok || f.seqLen < b.seqLen || (f.seqLen == b.seqLen && f.idx < b.idx) {
-				best[k] = f
-			}
+	}
+	for _, cr := range cresults {
+		if cr != nil {
+			allFindings = append(allFindings, cr.findings...)
+		}
+	}
+	for _, f := range allFindings {
+		k := f.axis + "|" + f.field
+		count[k]++
+		if b, ok := best[k]; !ok || f.seqLen < b.seqLen || (f.seqLen == b.seqLen && f.idx < b.idx) {
+			best[k] = f
 		}
 	}
 	var keys []string
@@ -949,21 +1029,33 @@ func main() {
 	for _, k := range keys {
 		f := best[k]
 		sig := fmt.Sprintf("C06|block=%s@%s-%s|axis=%s|field=%s", strings.Join(f.cid.Seq, ","), f.cid.Kind, f.cid.Pre, f.axis, f.field)
-		r.Violation(sig, fmt.Sprintf("%s [%d enumerated blocks show this axis/field]", f.what, count[k]), f.cid)
+		r.Violation(sig, fmt.Sprintf("%s [%d enumerated blocks/chains show this axis/field]", f.what, count[k]), f.cid)
 	}
 
 	// 6. coverage, vacuity guards
+	exhaustive = exhaustive && cdone == int64(len(cjobs))
 	if exhaustive {
 		r.Exhaustive(true)
 	} else {
-		r.NotExhaustive(fmt.Sprintf("deadline: %d of %d enumerated blocks executed (shortest first)", done, len(jobs)))
+		r.NotExhaustive(fmt.Sprintf("deadline: %d of %d chains and %d of %d enumerated blocks executed (shortest first)", cdone, len(cjobs), done, len(jobs)))
 	}
+	var cpn []string
+	for _, p := range cpres {
+		cpn = append(cpn, p.id())
+	}
+	r.Set("chain_parent_states", cpn)
 	var pn []string
 	for _, p := range pres {
 		pn = append(pn, p.id())
 	}
 	r.Set("parent_states", pn)
-	r.Set("alphabet", len(alphabet))
+	nMain := 0
+	for _, t := range alphabet {
+		if !t.ChainOnly {
+			nMain++
+		}
+	}
+	r.Set("alphabet", nMain)
 	r.Set("max_block_len", maxLen)
 	r.Set("distinct_app_hashes", len(appHashes))
 	r.Set("blocks_validator_set_grew", grew)
@@ -979,10 +1071,14 @@ func main() {
 	if maxLen >= 3 {
 		lenRule = " (length 3: over the " + fmt.Sprint(len(coreNames)) + "-template core " + strings.Join(coreNames, ",") + ", on the two deployed parent states only)"
 	}
-	r.Set("rule", "blocks = every sequence of <= "+fmt.Sprint(maxLen)+" transaction templates over the "+fmt.Sprint(len(alphabet))+"-template alphabet (txs.go)"+lenRule+" x parent states "+strings.Join(pn, ", ")+
+	r.Set("rule", "blocks = every sequence of <= "+fmt.Sprint(maxLen)+" transaction templates over the "+fmt.Sprint(nMain)+"-template alphabet (txs.go)"+lenRule+" x parent states "+strings.Join(pn, ", ")+
 		"; the enumerated block carries the template transactions in template order on the header the real proposer produced; every block is executed by ApplyBlock on fresh real node stacks under the variants "+
 		"{cache configuration} x {repetition} x {warm, cold restart} and once through the proposer path; evaluations = executions of the block under test by BlockExecutor.ApplyBlock (validator_report_evaluations are counted separately); "+
 		"distinct_nontrivial = distinct (template sequence, parent state) whose reference execution executed >= 1 transaction successfully or skipped >= 1 transaction (measured from receipts); "+
+		"chains = every sequence of "+fmt.Sprint(chainBlocks)+" consecutive blocks, each holding <= 1 transaction of {(empty), "+strings.Join(chainLetterNames[1:], ", ")+"}, on the parent states "+strings.Join(cpn, ", ")+
+		" whose multi-purpose contract is part of the GENESIS allocation with non-zero values in slots 1..5 (resident in the snapshot disk layer), built block after block through the real proposer path, executed on fresh nodes under "+
+		fmt.Sprint(len(cvariants))+" variants {cache configuration} x {repetition} x {no restart, clean restart between blocks, restart that enables snapshots (snapshot regenerated from the head state)} and compared field by field after EVERY block, "+
+		"including the contract's account and slots 1..5 read back through BlockChain.State() (field state-read-back); a chain is non-trivial if some block executed a transaction successfully; "+
 		"validator reports: every permutation of every report of <= 4 of 5 addresses x {absent, power 0, same power, other power} on 5 base sets")
 	r.Assume("Go's per-iteration map-order randomisation cannot be enumerated: it is exercised by the repetitions (>= 3 fresh executions per configuration, >= 12 per block) and by separate processes (thorough), not exhausted",
 		"TrieCleanNoPrefetch is carried through the enumeration but at this commit nothing in the block path consults it (StateDB.StartPrefetcher is never called): that axis cannot differ by construction",
@@ -990,9 +1086,15 @@ func main() {
 		"cold restarts are handed the consensus state the stopped node held in memory: persistence of LatestBlockState is C14's subject",
 		"blocks are signed by all genesis validators with vote times that are a function of the height; block time is the median of those",
 		"the proposer's choice of transaction order (TxPool.Pending iterates a map) is the proposer's freedom, not a result: compared is what every node makes of one given block",
-		"memorydb stands in for LevelDB; SnapshotWait=true (snapshot generation finishes before the first block)")
+		"memorydb stands in for LevelDB; SnapshotWait=true (snapshot generation finishes before the first block)",
+		"snapshot diff layers are never flattened to disk by age in this space (that needs > 128 blocks AND > 4 MB of accumulated diffs, and heights >= 50 make tx_pool.UpdateBlacklist issue HTTP requests): values reach the snapshot's disk layer through the genesis allocation and through restarts that regenerate the snapshot from the head state")
 	if exhaustive {
+		r.Require(clearThenRead > 0, "no chain cleared a non-zero genesis slot in one block and read it in a later block")
+		r.Require(readOK > 0, "template readB never executed successfully in a chain")
 		for _, t := range alphabet {
+			if t.ChainOnly {
+				continue
+			}
 			want := t.Want
 			switch want {
 			case "kind":
